@@ -660,6 +660,8 @@ class ExprBuilder:
 
     def call(self, t, depth=0, stack=()):
         name = t.get('callee') or '<indirect>'
+        if not t['args'] and t.get('callee_full') and name in ('std::mem::size_of', 'std::mem::align_of'):
+            name = t['callee_full']  # size_of::<T>() etc.: the type argument is the whole meaning
         args = tuple(self.operand(a, depth, stack) for a in t['args'])
         if self.transparent:
             idx = TRANSPARENT_CALLS.get(name)
